@@ -185,6 +185,32 @@ def initChild (child : Ty) : Tree → Tree
   | .none => if isListTy child then .list [] else if isModelTy child then .dict [] else .none
   | t => t
 
+/-- `if key not in output_field: output_field[key] = None` -/
+def ensureKey (key : Str) (kvs : List (Str × Tree)) : List (Str × Tree) :=
+  match alookup key kvs with
+  | some _ => kvs
+  | none => aset key Tree.none kvs
+
+/-- write the updated child back: `output_field[key] = sub` -/
+def wrapDict (key : Str) (kvs : List (Str × Tree)) : Except Err Tree → Except Err Tree
+  | .error e => .error e
+  | .ok sub => .ok (.dict (aset key sub kvs))
+
+def wrapList (key : Nat) (xs : List Tree) : Except Err Tree → Except Err Tree
+  | .error e => .error e
+  | .ok sub => .ok (.list (xs.set key sub))
+
+/-- the assignment at the entry found: `field[key] = t`, or nothing (blank bool) -/
+def leafDict (key : Str) (kvs : List (Str × Tree)) : Except Err (Option Tree) → Except Err Tree
+  | .error e => .error e
+  | .ok (some t) => .ok (.dict (aset key t kvs))
+  | .ok none => .ok (.dict kvs)
+
+def leafList (key : Nat) (xs : List Tree) : Except Err (Option Tree) → Except Err Tree
+  | .error e => .error e
+  | .ok (some t) => .ok (.list (xs.set key t))
+  | .ok none => .ok (.list xs)
+
 /-- `find_entry` followed by the assignment at the entry found, as one functional update
 of the output tree.  `leaf child` computes what `assign_value` does at the entry whose
 type is `child`. -/
@@ -206,15 +232,9 @@ def findSet (leaf : Ty → Except Err (Option Tree)) : Ty → Tree → List Str 
             | some key =>
               let child := listChild ty
               match rest with
-              | [] =>
-                match leaf child with
-                | .error e => .error e
-                | .ok (some t) => .ok (.list (xs.set key t))
-                | .ok none => .ok (.list xs)
+              | [] => leafList key xs (leaf child)
               | _ :: _ =>
-                match findSet leaf child (initChild child (xs.getD key .none)) rest with
-                | .error e => .error e
-                | .ok sub => .ok (.list (xs.set key sub))
+                wrapList key xs (findSet leaf child (initChild child (xs.getD key .none)) rest)
       | _ => .error .illTyped
     else
       match ty with
@@ -226,19 +246,12 @@ def findSet (leaf : Ty → Except Err (Option Tree)) : Ty → Tree → List Str 
           | none => .error .noField
           | some f =>
             let child := f.2.1
-            let kvs := match alookup key kvs with
-              | some _ => kvs
-              | none => aset key .none kvs
+            let kvs := ensureKey key kvs
             match rest with
-            | [] =>
-              match leaf child with
-              | .error e => .error e
-              | .ok (some t) => .ok (.dict (aset key t kvs))
-              | .ok none => .ok (.dict kvs)
+            | [] => leafDict key kvs (leaf child)
             | _ :: _ =>
-              match findSet leaf child (initChild child ((alookup key kvs).getD .none)) rest with
-              | .error e => .error e
-              | .ok sub => .ok (.dict (aset key sub kvs))
+              wrapDict key kvs
+                (findSet leaf child (initChild child ((alookup key kvs).getD .none)) rest)
         | _ => .error .illTyped
       | _ => .error .assertion
 
